@@ -24,10 +24,10 @@ open FunModel.Pipe
 /-! ## FanOut(n): Split, ProcessParallel / ParallelForEach / Worker, Map, ParallelBuffer -/
 
 /-- `conservation`: in every reachable state (any n, any buffer size, any schedule, also after Close
-    or cancellation) input ≈ delivered ++ in-flight ++ given-up ++ remaining -/
+    or cancellation) input ≈ delivered ++ in-flight ++ given-up (by workers / by the reader) ++ remaining -/
 theorem fanout_conservation {c : FanOut.Cfg} {input : List Nat} {k1 k2 : Nat} {s : FanOut.St}
     (h : FanOut.Reachable c input k1 k2 s) :
-    (s.got ++ s.seen ++ s.out ++ s.hold ++ s.rd.held ++ s.dropped ++ s.src).Perm input :=
+    (s.got ++ s.seen ++ s.out ++ s.hold ++ s.droppedW ++ s.rd.held ++ s.droppedR ++ s.src).Perm input :=
   List.perm_iff_count.mpr (FanOut.reachable_good h).conserved
 
 /-- nothing is duplicated or invented, at any time, in any run (also after Close / cancellation):
@@ -43,9 +43,9 @@ theorem fanout_terminal_multiset_eq {c : FanOut.Cfg} {input : List Nat} {k1 k2 :
     (hwf : c.wf) (h : FanOut.Reachable c input k1 k2 s) (hclean : s.envStopped = false)
     (ht : s.terminal c = true) : (s.got ++ s.seen).Perm input := by
   have hg := FanOut.reachable_good h
-  obtain ⟨t1, t2, t3, t4, t5⟩ := FanOut.terminal_items hg hwf hclean ht
+  obtain ⟨t1, t2, t3, t4, t5, t6⟩ := FanOut.terminal_items hg hwf hclean ht
   have := fanout_conservation h
-  simpa [t1, t2, t3, t4, t5] using this
+  simpa [t1, t2, t3, t4, t5, t6] using this
 
 /-- the same with no close/cancel budget: every terminal state of an exhaust run -/
 theorem fanout_exhaust_multiset_eq {c : FanOut.Cfg} {input : List Nat} {s : FanOut.St}
@@ -55,12 +55,15 @@ theorem fanout_exhaust_multiset_eq {c : FanOut.Cfg} {input : List Nat} {s : FanO
   have := FanOut.run_nostop as (s := FanOut.init c input 0 0) (by simp [FanOut.init]) hr
   exact fanout_terminal_multiset_eq hwf ⟨as, hr⟩ this.1 ht
 
-/-- `single_worker_order`: with one worker a failure-free run keeps the input order, at every moment:
-    delivered, then buffered, then held by the worker, then held by the reader, then unread -/
+/-- `single_worker_order`: with one worker the input order is kept at every moment of **every** run
+    (also after Close / cancellation): delivered, then buffered, then held by the worker, then given up
+    by the worker, then held by the reader, then given up by the reader, then unread. In a failure-free
+    run nothing is given up. -/
 theorem fanout_single_worker_order {c : FanOut.Cfg} {input : List Nat} {k1 k2 : Nat} {s : FanOut.St}
-    (h : FanOut.Reachable c input k1 k2 s) (hn : c.n = 1) (hclean : s.envStopped = false) :
-    s.got ++ s.seen ++ s.out ++ s.hold ++ s.rd.held ++ s.src = input :=
-  ((FanOut.reachable_good h).clean hclean).order1 hn
+    (h : FanOut.Reachable c input k1 k2 s) (hn : c.n = 1) :
+    s.got ++ s.seen ++ s.out ++ s.hold ++ s.droppedW ++ s.rd.held ++ s.droppedR ++ s.src = input ∧
+    (s.envStopped = false → s.droppedW = [] ∧ s.droppedR = []) :=
+  ⟨((FanOut.reachable_good h).ord1 hn).order, fun hc => ((FanOut.reachable_good h).clean hc).dropped⟩
 
 /-- `setup_once`: however many outputs are advanced, at most one reader goroutine is ever started, and
     exactly one once any output has been advanced -/
@@ -106,11 +109,12 @@ theorem fanin_terminal_multiset_eq {c : FanIn.Cfg} {privs : List (List Nat)} {sh
   have := fanin_conservation h
   simpa [t1, t2, t3, t4, t5] using this
 
-/-- a single producer keeps the order of its source (MergeIterators of one iterator,
-    GenerateParallel with one worker) -/
+/-- a single producer keeps the order of its source in **every** run (MergeIterators of one iterator,
+    GenerateParallel with one worker); in a failure-free run nothing is given up -/
 theorem fanin_single_producer_order {c : FanIn.Cfg} {l shared : List Nat} {k1 k2 : Nat} {s : FanIn.St}
-    (h : FanIn.Reachable c [l] shared k1 k2 s) (hclean : s.envStopped = false) :
-    s.got ++ s.pipe ++ s.prods.flatMap (fun p => p.held.toList) ++ s.prods.flatMap (·.src) ++ s.shared = l ++ shared := by
+    (h : FanIn.Reachable c [l] shared k1 k2 s) :
+    s.got ++ s.pipe ++ s.prods.flatMap (fun p => p.held.toList) ++ s.dropped ++ s.prods.flatMap (·.src) ++ s.shared
+      = l ++ shared ∧ (s.envStopped = false → s.dropped = []) := by
   have hg := FanIn.reachable_good h
   have hlen : s.prods.length = 1 := by
     obtain ⟨as, hr⟩ := h
@@ -127,8 +131,8 @@ theorem fanin_single_producer_order {c : FanIn.Cfg} {l shared : List Nat} {k1 k2
           simp only [hst] at hr
           rw [ih s2 s1 hr, FanIn.prods_length_step hst]
     rw [this as _ _ hr]; simp [FanIn.init]
-  have := hg.order1 hclean hlen
-  simpa [FanIn.inputOf] using this
+  have := (hg.order1 hlen).1
+  exact ⟨by simpa [FanIn.inputOf] using this, fun hc => (hg.clean hc).dropped⟩
 
 /-! ## Feeder: Buffer, Chain, MergeSlices, MergeSliceIterators, BufferedChannel, dt.Map / adt.Map iterators -/
 
